@@ -285,3 +285,57 @@ pub fn mask_to_indexes(mask: u32, l: usize) -> Vec<usize> {
 pub fn mask_idx(mask: u32, n: usize) -> Vec<usize> {
     (0..n).filter(|i| mask.rotate_left((*i / 32) as u32) >> (i % 32) & 1 == 1).collect()
 }
+
+
+/// FNV-1a (32 bit), the fingerprint a hand-written cache key is most likely to use.
+pub fn fnv1a32(data: &[u8]) -> u32 {
+    let mut h: u32 = 0x811c9dc5;
+    for &b in data {
+        h = (h ^ b as u32).wrapping_mul(0x01000193);
+    }
+    h
+}
+
+/// Another octet string of the same length with the same FNV-1a-32 value (second preimage by meet in the
+/// middle over the last four octets after one earlier octet was changed).  Needs at least 5 octets.
+pub fn fnv1a32_collision(data: &[u8], salt: u64) -> Option<Vec<u8>> {
+    use std::collections::HashMap;
+    const P: u32 = 0x01000193;
+    const PINV: u32 = 0x359c449b; // P * PINV = 1 (mod 2^32)
+    debug_assert_eq!(P.wrapping_mul(PINV), 1);
+    let n = data.len();
+    if n < 5 {
+        return None;
+    }
+    let target = fnv1a32(data);
+    let mut st = salt | 1;
+    for _ in 0..64 {
+        let mut out = data.to_vec();
+        let pos = (splitmix(&mut st) as usize) % (n - 4);
+        out[pos] ^= 1 + (splitmix(&mut st) % 255) as u8;
+        let s0 = fnv1a32(&out[..n - 4]);
+        let mut fwd: HashMap<u32, (u8, u8)> = HashMap::with_capacity(65536);
+        for b1 in 0..=255u8 {
+            let s1 = (s0 ^ b1 as u32).wrapping_mul(P);
+            for b2 in 0..=255u8 {
+                fwd.insert((s1 ^ b2 as u32).wrapping_mul(P), (b1, b2));
+            }
+        }
+        for b4 in 0..=255u8 {
+            let before4 = target.wrapping_mul(PINV) ^ b4 as u32;
+            for b3 in 0..=255u8 {
+                let before3 = before4.wrapping_mul(PINV) ^ b3 as u32;
+                if let Some(&(b1, b2)) = fwd.get(&before3) {
+                    out[n - 4] = b1;
+                    out[n - 3] = b2;
+                    out[n - 2] = b3;
+                    out[n - 1] = b4;
+                    if out != data && fnv1a32(&out) == target {
+                        return Some(out);
+                    }
+                }
+            }
+        }
+    }
+    None
+}
